@@ -27,6 +27,9 @@ pub enum Mutation {
     TruncateRaw(u16),
     /// append bytes to the body, size field adjusted
     ExtendFramed(Vec<u8>),
+    /// relational boundary: word[b + k] := limit - word[b] + delta (words of `width` bytes; limit 2^(8*width) or 0x1000),
+    /// i.e. a base placed so that base + length ends exactly at / one off the wrap point or the config-space end
+    SumEdge { b: u16, k: i8, width: u8, limit: u8, delta: i8 },
 }
 
 #[derive(Serialize, Deserialize, Debug, Clone, Hash, PartialEq, Eq)]
@@ -77,6 +80,26 @@ impl ChunkSpec {
                 body.truncate(n);
             }
             Mutation::ExtendFramed(x) => body.extend_from_slice(x),
+            Mutation::SumEdge { b, k, width, limit, delta } => {
+                let w = if *width == 4 { 4usize } else { 8 };
+                let n = body.len() / w;
+                if n >= 2 {
+                    let bi = (*b as usize * n) >> 16;
+                    let ai = bi as i64 + *k as i64;
+                    if ai >= 0 && (ai as usize) < n && ai as usize != bi {
+                        let rd = |i: usize| -> u64 {
+                            let mut x = [0u8; 8];
+                            x[..w].copy_from_slice(&body[i * w..i * w + w]);
+                            u64::from_ne_bytes(x)
+                        };
+                        let len = rd(bi);
+                        let lim: u64 = if *limit == 1 { 0x1000 } else if w == 4 { 1 << 32 } else { 0 };
+                        let v = lim.wrapping_sub(len).wrapping_add(*delta as i64 as u64);
+                        let ai = ai as usize;
+                        body[ai * w..ai * w + w].copy_from_slice(&v.to_ne_bytes()[..w]);
+                    }
+                }
+            }
         }
         let size = size.unwrap_or(body.len() as u32);
         let mut v = spec::hdr(code, flags, size).to_vec();
@@ -102,6 +125,8 @@ pub fn mutation_strategy() -> impl Strategy<Value = Mutation> {
         1 => any::<u16>().prop_map(Mutation::TruncateFramed),
         1 => any::<u16>().prop_map(Mutation::TruncateRaw),
         1 => proptest::collection::vec(any::<u8>(), 1..40).prop_map(Mutation::ExtendFramed),
+        3 => (any::<u16>(), prop_oneof![Just(-1i8), Just(1), Just(2)], prop_oneof![3 => Just(8u8), 1 => Just(4u8)], prop_oneof![3 => Just(0u8), 1 => Just(1u8)], -1i8..=1)
+            .prop_map(|(b, k, width, limit, delta)| Mutation::SumEdge { b, k, width, limit, delta }),
     ]
 }
 
